@@ -15,8 +15,10 @@ CONSTANTS V, D1, D2,
 VARIABLES fam, case, hist
 gvars == <<vars, fam, case, hist>>
 
-RECURSIVE Sorted(_)
-Sorted(S) == IF S = {} THEN <<>> ELSE LET m == CHOOSE x \in S : \A y \in S : x <= y IN <<m>> \o Sorted(S \ {m})
+\* ascending sequence of the elements of a bit set (function: argument evaluated once)
+AllBitSeq == [i \in 1..32 |-> i - 1]
+SortedF[S \in SUBSET (0..31)] == SelectSeq(AllBitSeq, LAMBDA b : b \in S)
+Sorted(S) == SortedF[S]
 
 (* ---- class tables (sequences, for the rotation) *)
 TypeSeq  == <<"Raw", "Directory", "File", "Metadata", "Symlink", "HAMTShard">>
